@@ -309,11 +309,21 @@ def regex_crate_pass(run, r, log):
                 raw = lf.pat if lf.is_bytes else lf.pat.encode('utf-8')
                 reqs.append('L %d %d %s' % (0 if lf.is_bytes else 1, 1 if lf.ignore_case else 0, P.hexs(raw)))
             else:
+                # the Unicode mode of a pattern is that of its literal: str -> Unicode, byte string -> not
+                rawp = lf.pat if isinstance(lf.pat, (bytes, bytearray)) else lf.pat.encode('utf-8')
                 if lf.is_bytes:
-                    continue
-                reqs.append('P 1 %d %s' % (1 if lf.ignore_case else 0, P.hexs(lf.pat.encode('utf-8'))))
+                    # a byte of a byte-string literal that is not ASCII stands for itself
+                    rawp = ''.join(chr(b_) if b_ < 128 else '\\x%02X' % b_ for b_ in rawp).encode('ascii')
+                reqs.append('P %d %d %s' % (0 if lf.is_bytes else 1, 1 if lf.ignore_case else 0, P.hexs(rawp)))
             keys.append(None)
             ws = set()
+            # strings on which Unicode-aware and ASCII-only readings of \\s, \\d, \\w, ., (?i) and of classes differ
+            probes = ['\u2003', '\u00a0', '\u00e9', '\u00df', '\u03a9', '\u041a', '\u0663', '\u212a', '\u017f', '\u4e2d']
+            for pc in probes:
+                ws.add(pc.encode('utf-8'))
+                ws.add(pc.encode('utf-8') * 2)
+            if not d.utf8:
+                ws.update([b'\x80', b'\xff', b'\xc3', b'a\xff'])
             for _ in range(6):
                 try:
                     smp = lf.ast.sample(R) if lf.ast is not None else (lf.pat if isinstance(lf.pat, str) else '')
@@ -321,6 +331,8 @@ def regex_crate_pass(run, r, log):
                     smp = 'a'
                 b = smp.encode('utf-8')
                 ws.add(b)
+                ws.add(b + '\u2003'.encode('utf-8'))
+                ws.add('\u0663'.encode('utf-8') + b)
                 if b:
                     k = R.randrange(len(b))
                     ws.add(b[:k] + b[k + 1:])
@@ -345,6 +357,7 @@ def regex_crate_pass(run, r, log):
     ans = P.run_lean(lines, nproc=8)
     n = bad = matched = 0
     badpat = False
+    disagree = []
     for k, o in zip(keys, outs):
         if k is None:
             badpat = (o != 'OK')
@@ -359,11 +372,101 @@ def regex_crate_pass(run, r, log):
         matched += (o == '1')
         if mv != o:
             bad += 1
+            disagree.append((i, li, w))
             run.violation('spec-vs-regex-crate', dict(definition=r['srcs'][i], leaf=li, string_hex=P.hexs(w), string_text=w.decode('utf-8', 'replace'),
                                                       regex_crate_matches=o, lean_semantics_of_captured_hir=mv,
                                                       what='the regex crate and the Lean semantics of the HIR logos compiled disagree on this string: either logos compiles a different pattern than written, or the dump/lowering/semantics is wrong',
                                                       correspondence='T-C'), no_input=True, key='tc|%s|%d|%s' % (corpus[i].origin, li, P.hexs(w)))
-    return dict(comparisons=n, matching_strings=matched, disagreements=bad)
+    found = written_reference_search(run, r, disagree, binp, log) if disagree else 0
+    return dict(comparisons=n, matching_strings=matched, disagreements=bad, failing_inputs_found=found)
+
+
+def written_reference_search(run, r, disagree, refbin, log):
+    """When a leaf as compiled and the pattern as written disagree on a string: run the compiled lexer on inputs built from
+    that string and compare with a reference lexer made of the patterns *as written* (regex crate, Unicode mode from the
+    literal kind, longest match over all leaves, recorded priorities).  Definitions without callbacks and subpatterns only."""
+    import subprocess, zoo as Z
+    corpus, caps = r['corpus'], r['caps']
+    cfg = next((c for c, o in r['zoo_out'].items() if o and 'trace' not in c), None)
+    if cfg is None:
+        return 0
+    zbin = os.path.join(P.HARNESS, 'target-zoo', 'zoo-%s-%s' % (r['tier'], cfg), 'debug', 'zoo')
+    by_def = {}
+    for (i, li, w) in disagree:
+        d = corpus[i]
+        if d.subpatterns or any(l.cb for l in d.leaves) or d.errcb:
+            continue
+        by_def.setdefault(i, set()).update([w, w + w, b'a ' + w, w + b' a'])
+    found = 0
+    for i, cands in by_def.items():
+        d = corpus[i]
+        leaves = d.ordered_leaves()
+        cands = sorted(c for c in cands if len(c) <= 16 and (not d.utf8 or P.is_valid_utf8(list(c))))[:12]
+        if not cands or any(getattr(lf, 'look', False) for lf in leaves):
+            continue
+        # every substring of every candidate against every leaf as written
+        reqs, idxs = [], []
+        for li, lf in enumerate(leaves):
+            if lf.kind == 'token':
+                raw = lf.pat if lf.is_bytes else lf.pat.encode('utf-8')
+                reqs.append('L %d %d %s' % (0 if lf.is_bytes else 1, 1 if lf.ignore_case else 0, P.hexs(raw)))
+            else:
+                rawp = lf.pat if isinstance(lf.pat, (bytes, bytearray)) else lf.pat.encode('utf-8')
+                if lf.is_bytes:
+                    rawp = ''.join(chr(b_) if b_ < 128 else '\\x%02X' % b_ for b_ in rawp).encode('ascii')
+                reqs.append('P %d %d %s' % (0 if lf.is_bytes else 1, 1 if lf.ignore_case else 0, P.hexs(rawp)))
+            idxs.append(None)
+            for c in cands:
+                for a in range(len(c)):
+                    for b in range(a + 1, len(c) + 1):
+                        reqs.append('W ' + P.hexs(c[a:b]))
+                        idxs.append((li, c, a, b))
+        outs = subprocess.run([refbin], input='\n'.join(reqs) + '\n', capture_output=True, text=True).stdout.split('\n')
+        m = {k: o for k, o in zip(idxs, outs) if k is not None}
+        zouts = Z.run_zoo(zbin, ['%d n %s' % (i, P.hexs(c)) for c in cands], nproc=1)
+        cap = caps[i]
+        for ln in zouts:
+            idx, mode, hx, v = split_line(ln)
+            c = bytes.fromhex(hx if hx != '-' else '')
+            items, final, marker = parse_stream(v)
+            if marker:
+                continue
+            obs = list(items)
+            pos, ok, why = 0, True, None
+            while pos < len(c) and ok:
+                best = None
+                for li in range(len(leaves)):
+                    for b in range(len(c), pos, -1):
+                        if m.get((li, c, pos, b)) == '1':
+                            pr = cap.leaves[li][0]
+                            if best is None or b > best[1] or (b == best[1] and pr > best[2]):
+                                best = (li, b, pr)
+                            break
+                nxt = obs[0] if obs else None
+                if best is None:
+                    if nxt is None or nxt[0] != 'err' or nxt[2] != pos:
+                        ok, why = False, 'no pattern as written matches at %d, the lexer yields %s' % (pos, nxt)
+                    else:
+                        pos = max(nxt[3], pos + 1)
+                        obs.pop(0)
+                    continue
+                li, b, pr = best
+                if cap.leaves[li][1] == 0:       # a skip: no item, the next item starts at or after b
+                    if nxt is not None and nxt[2] < b:
+                        ok, why = False, 'the skip pattern %d as written matches %d..%d, the lexer yields %s there' % (li, pos, b, nxt)
+                    pos = b
+                    continue
+                want = (cap.leaves[li][3], pos, b)
+                if nxt is None or nxt[0] != 'ok' or (nxt[1], nxt[2], nxt[3]) != want:
+                    ok, why = False, 'the patterns as written give %s:%d-%d (longest match, top priority), the lexer yields %s' % (want + (nxt,))
+                else:
+                    obs.pop(0)
+                    pos = b
+            if not ok:
+                found += 1
+                run.violation('oracle', rep_of(r, i, cfg, 'n', hx, observed=v, what=why, found_by='reference lexer over the patterns as written (regex crate), started by a spec-vs-regex-crate disagreement'),
+                              key='written|%s|%s' % (corpus[i].origin, hx))
+    return found
 
 
 def pikevm_pass(run, r, log):
